@@ -5,8 +5,11 @@ legs: MC   TLC explores all histories of <= 5 calls (parse / execute(object) / e
            Number ; Bind ; Run, and checks: every result = Denote(text, params, data) -- a function of those three
            only --, never an error when the parameters match, data unchanged, positional binding by TEXT position.
            On the mechanism as shipped (truthiness classification of the stored names) TLC must find
-           Parse; Execute; Execute on two positional placeholders (non-vacuity).  Folding law Eval(Fold(e)) = Eval(e)
-           over the expression space (operators; AND / OR / NOT / IS NULL over NULL, TRUE, FALSE, a bool column and
+           Parse; Execute; Execute on two positional placeholders (non-vacuity).  Statements whose parameter is an
+           output (its literal kind shows in value and type) with parameters 1 / TRUE / 0 / FALSE, on a connection that
+           keeps compiled statements: keyed by (text, parameters as BQL values) the property holds, keyed by the host
+           language's equality (True == 1) TLC must find execute(text); execute(text) (non-vacuity).
+           Folding law Eval(Fold(e)) = Eval(e) over the expression space (operators; AND / OR / NOT / IS NULL over NULL, TRUE, FALSE, a bool column and
            comparisons that are NULL in some rows); the short-cut "a constant FALSE decides an AND wherever it
            stands" must be rejected (NULL AND FALSE is NULL).
       S2C  every history TLC emits (plus simulated deeper ones) is replayed on ONE connection with re-used parsed
@@ -18,9 +21,16 @@ legs: MC   TLC explores all histories of <= 5 calls (parse / execute(object) / e
            row- and context-dependent functions) is compared folded vs per-row.
       C2S  random histories of <= 40 calls (modelled statements and ledger statements outside the model, on two
            connections over the same data) are recorded and replayed by TLC through BQLSession's steps
-           (Trace_BQLSession).  Every ledger statement is first (and last) executed on a connection of its own, and
-           once more in a NEW process (nothing else executed there, qualified statements first): TLC holds every
-           other result against those history-free ones.
+           (Trace_BQLSession).  Every ledger statement is first (and last) executed on a connection of its own, once
+           with its parameter values written as literals, and once more in a NEW process (nothing else executed
+           there, qualified statements first): TLC holds every other result against those history-free ones.  The
+           statements outside the model include aggregates and functions over a table whose rows hold STORED
+           inventories (#h: mutable objects; the data are compared by value after every call) and statements that
+           expose the literal kind of a parameter, with parameter values the host language calls equal although they
+           are different BQL values (1 / TRUE / 1.0 / 1.00, 0 / FALSE / 0.0, 2.5 / 2.50); a closing sweep executes
+           every statement text with each of its parameter sets in turn on one connection; finally #h is REPLACED by a
+           table holding other data on the long-lived connections and its statements are executed again (a result is
+           a function of the data as they are now).
 """
 import copy
 import datetime
@@ -238,10 +248,92 @@ LEDGER_STMTS = [
 ]
 
 
+# ---- stored mutable values: the table #h ----------------------------------------------------------------------
+HOLDINGS = [   # (grp, name, inventory or None, n): groups of several non-NULL inventories, of one row, with a leading
+               # NULL, with an empty inventory in the middle (the running sum passes through `empty` again)
+    ('a', 'cash', '10.00 USD', 3), ('a', 'broker', '5 HOOL {100.00 USD}, 2.00 USD', 1), ('a', 'wallet', '1.50 USD, 3.00 EUR', 2),
+    ('b', 'single', '7.00 CAD', 5),
+    ('c', 'null', None, 0), ('c', 'after', '4.00 USD', 4), ('c', 'empty', '', 2), ('c', 'last', '6.00 USD, 2 HOOL {90.00 USD}', 7),
+    ('d', 'minus', '-3.00 USD', 6), ('d', 'plus', '3.00 USD', 1), ('d', 'more', '1 HOOL {95.00 USD}', 9),
+]
+
+
+def holdings_rows(epoch=0):
+    """NEW row objects of #h: (grp, name, inv, pos, amt, n) -- `inv` is an Inventory STORED in the row (a mutable object the
+    table hands out as it is, unlike the ledger's `balance` column which hands out copies), `pos` / `amt` its first
+    position and that position's units.  epoch 1: OTHER data under the same table name (rows in another order, one
+    missing, other numbers)"""
+    from beancount.core import inventory
+    out = []
+    src = HOLDINGS if not epoch else [(g, name, text, n + 2) for g, name, text, n in reversed(HOLDINGS) if name != 'broker']
+    for grp, name, text, n in src:
+        inv = None if text is None else inventory.from_string(text)
+        pos = None if inv is None or inv.is_empty() else sorted(inv)[0]
+        out.append((grp, name, inv, pos, pos.units if pos else None, n))
+    return out
+
+
+def holdings_table(rows):
+    from beancount.core import amount, inventory, position
+    from harness import tables as ht
+    t = ht.HarnessTable('h', [('grp', 'str'), ('name', 'str'), ('inv', inventory.Inventory), ('pos', position.Position),
+                              ('amt', amount.Amount), ('n', 'int')], [])
+    t.rows = rows       # the caller's list and row objects, not a copy
+    return t
+
+
+def frozen(rows):
+    """what the rows hold, by value"""
+    return [tuple(repr(v) for v in row) for row in rows]
+
+
+# values of every literal kind, among them values the host language compares (and hashes) as equal although they are
+# different BQL values: 1 / TRUE / 1.0 / 1.00, 0 / FALSE / 0.0, 2.5 / 2.50
+KIND_VALUES = [1, True, D('1.0'), D('1.00'), 0, False, D('0.0'), D('2.5'), D('2.50'), '1', datetime.date(2020, 1, 1), None]
+HOLDINGS_STMTS = [
+    ("SELECT grp, sum(inv) AS total FROM #h GROUP BY grp ORDER BY grp", [()]),
+    ("SELECT sum(inv) AS total, count(inv) AS k FROM #h WHERE grp != %s", [('b',), ('a',), ('zz',)]),
+    ("SELECT grp, units(sum(inv)) AS u, first(inv) AS f, last(inv) AS l FROM #h WHERE name != %(skip)s GROUP BY grp ORDER BY grp",
+     [{'skip': 'cash'}, {'skip': 'null'}, {'skip': ''}]),
+    ("SELECT name, inv FROM #h ORDER BY name", [()]),
+    ("SELECT grp, sum(inv) AS total FROM (SELECT grp, inv FROM #h WHERE n > %s) GROUP BY grp ORDER BY grp", [(0,), (2,), (8,)]),
+    ("SELECT grp, sum(pos) AS p, sum(amt) AS u, sum(n) AS k FROM #h GROUP BY grp ORDER BY grp", [()]),
+    ("SELECT name, cost(inv) AS c, filter_currency(inv, %s) AS f FROM #h ORDER BY name", [('USD',), ('EUR',)]),
+    ("SELECT name, pos, amt, units(inv) AS u FROM #h WHERE n >= %(lo)s ORDER BY name", [{'lo': 2}, {'lo': 0, 'hi': 9}]),
+    # the parameter as an output, under type-sensitive functions, inside a FROM-subquery, in an operator, repeated
+    ("SELECT str(%s) AS s, %s AS v FROM #", [(v, v) for v in KIND_VALUES]),
+    ("SELECT %(v)s AS v, repr(%(v)s) AS r, name FROM #h WHERE n >= %(lo)s ORDER BY name LIMIT 2", [{'v': v, 'lo': 3} for v in KIND_VALUES]),
+    ("SELECT count(*) AS k, first(v) AS f FROM (SELECT %s AS v, name FROM #h WHERE n > 2)", [(v,) for v in KIND_VALUES]),
+    ("SELECT name, n * %s AS d, %s AS e FROM #h WHERE n < %s ORDER BY name",
+     [(v, v, v) for v in (D('2.5'), D('2.50'), 2, D('2.0'), D('2.00'))]),
+]
+
+
+def literal_twin(text, params):
+    """the statement with its parameter values written as literals (k-th `%s` <- k-th value, `%(name)s` <- the value of
+    that name), or None when some value has no literal that denotes exactly it (a Decimal without fractional digits)"""
+    import re
+
+    def lit(v):
+        if isinstance(v, D) and v.as_tuple().exponent >= 0:
+            raise ValueError(v)
+        return literal(v)
+    try:
+        if isinstance(params, dict):
+            out = re.sub(r'%\((\w+)\)s', lambda m: lit(params[m.group(1)]), text)
+        else:
+            it = iter(params)
+            out = re.sub(r'%s', lambda m: lit(next(it)), text)
+    except (ValueError, KeyError, StopIteration):
+        return None
+    return out if out != text else None
+
+
 def ledger_statements(entries):
     """LEDGER_STMTS + statements whose FROM clause carries the qualifiers OPEN ON / CLOSE [ON] / CLEAR (alone, together,
     after a filter expression, under BALANCES / JOURNAL), scans of the other ledger table and plain scans of the default
-    one -- dates taken from the ledger: a third and two thirds into its transactions"""
+    one -- dates taken from the ledger: a third and two thirds into its transactions -- + HOLDINGS_STMTS (aggregates and
+    functions over the stored inventories of #h; parameters of every literal kind)"""
     from beancount.core import data
     dates = [e.date for e in entries if isinstance(e, data.Transaction)] or [datetime.date(2022, 1, 10), datetime.date(2022, 1, 23)]
     d1, d2 = dates[len(dates) // 3], dates[2 * len(dates) // 3]
@@ -260,7 +352,7 @@ def ledger_statements(entries):
         ("SELECT date, type FROM #entries WHERE date < %%(d)s" % (), [{'d': d1}, {'d': d2}]),
         ("BALANCES FROM CLOSE ON %s" % d2, none),
         ("JOURNAL 'Assets:US:BofA:Checking' FROM OPEN ON %s" % d1, none),
-    ]
+    ] + HOLDINGS_STMTS
 
 
 def pristine_refs(seed, ntxn):
@@ -273,7 +365,9 @@ def pristine_refs(seed, ntxn):
     for k in reversed(range(len(stmts))):
         text, plist = stmts[k]
         for i in reversed(range(len(plist))):
-            cur = beanquery.connect('beancount:', entries=entries, errors=errors, options=options).cursor()
+            conn = beanquery.connect('beancount:', entries=entries, errors=errors, options=options)
+            conn.tables['h'] = holdings_table(holdings_rows())
+            cur = conn.cursor()
             try:
                 cur.execute(text, plist[i])
                 res = {'ok': True, 'hash': digest(cur.description, cur.fetchall())}
@@ -340,6 +434,7 @@ class Session:
         self.st = bm.StrTab()
         self.setup = setup
         self.tabs = setup['tabs']
+        self.epoch = 0
         if ledger:
             self.ntxn = ctx.pick(40, 120)
             entries, errors, options = c08mod.example_ledger(ctx.seed, self.ntxn)
@@ -348,12 +443,18 @@ class Session:
             self.ledger = (entries, errors, options)
             self.conn = self.connect()
             self.conn2 = self.connect()      # a second connection over the same data, alive during the whole recording
+            # #h on both: two table objects over the SAME rows (as the two connections share the ledger entries)
+            self.holdings = holdings_rows()
+            self.conn.tables['h'] = holdings_table(self.holdings)
+            self.conn2.tables['h'] = holdings_table(self.holdings)
         else:
             self.entries = self.entries_snapshot = []
+            self.holdings = []
             self.ledger = None
             self.conn = self.conn2 = beanquery.Connection()
         bm.install_tables(self.conn, self.tabs, self.st)
         self.table_snapshot = {n: list(self.conn.tables[n].rows) for n in self.tabs if n}
+        self.holdings_snapshot = frozen(self.holdings)
         self.stmts = [Stmt(s, self.st) for s in setup['stmts']]
         self.params = setup['params']
         self.cursor = self.conn.cursor()
@@ -371,10 +472,20 @@ class Session:
         self.counts[k] = self.counts.get(k, 0) + n
 
     def connect(self):
-        """a NEW connection over the same ledger entries"""
+        """a NEW connection over the same ledger entries, with a #h of its own (new row objects holding the same values)"""
         import beanquery
         entries, errors, options = self.ledger
-        return beanquery.connect('beancount:', entries=entries, errors=errors, options=options)
+        conn = beanquery.connect('beancount:', entries=entries, errors=errors, options=options)
+        conn.tables['h'] = holdings_table(holdings_rows(self.epoch))
+        return conn
+
+    def new_epoch(self):
+        """the data change: the long-lived connections get ANOTHER table #h (new connections are made over equal data)"""
+        self.epoch += 1
+        self.holdings = holdings_rows(self.epoch)
+        self.conn.tables['h'] = holdings_table(self.holdings)
+        self.conn2.tables['h'] = holdings_table(self.holdings)
+        self.holdings_snapshot = frozen(self.holdings)
 
     def run_ledger(self, cursor, k, i, op='execute', tree=None):
         """ledger statement k with its i-th parameters -> {'ok', 'hash', ..}"""
@@ -394,6 +505,20 @@ class Session:
         """the statement's text executed once on a connection of its own"""
         return self.run_ledger(self.connect().cursor(), k, [i], 'text')
 
+    def literal_ledger(self, k, i):
+        """the statement with its i-th parameter values written as literals, executed once on a connection of its own;
+        -> (text, result) or None when the values have no exact literal"""
+        text, _, plist = self.ledger_stmts[k]
+        twin = literal_twin(text, plist[i])
+        if twin is None:
+            return None
+        cursor = self.connect().cursor()
+        try:
+            cursor.execute(twin)
+            return twin, {'ok': True, 'hash': digest(cursor.description, cursor.fetchall())}
+        except Exception as ex:  # noqa
+            return twin, {'ok': False, 'hash': 'EXC', 'exc': type(ex).__name__, 'msg': str(ex)[:120]}
+
     def check_ledger(self, rng, case):
         """a ledger statement on the shared connection (whatever ran before) vs on a connection of its own"""
         k = rng.randrange(len(self.ledger_stmts))
@@ -408,17 +533,27 @@ class Session:
         ref = self.ledger_refs[(k, i)]
         obs = self.run_ledger(self.cursor, k, [i], 'execute' if rng.random() < 0.7 else 'text')
         self.count('ledger_checked')
-        self.ctx.case('ledger|%d|%d' % (k, i), nontrivial=any(w in text for w in ('OPEN', 'CLOSE', 'CLEAR')))
+        self.ctx.case('ledger|%d|%d' % (k, i), nontrivial=any(w in text for w in ('OPEN', 'CLOSE', 'CLEAR', '#h')))
+        if not self.data_same():
+            self.ctx.violation('data-mutated:statement', 'source tables / ledger entries differ after executing: %s' % text,
+                               dict(case, ledger=text, params=repr(plist[i])), self.leg)
         if (obs['ok'] != ref['ok'] or obs['hash'] != ref['hash']):
             self.ctx.violation('history:ledger:%s' % ('differs-from-fresh-connection' if obs['ok'] else 'exception:%s' % obs.get('exc')),
                                'a ledger statement after other executions on the connection vs on a fresh connection over the same '
                                'entries: %s' % text, dict(case, ledger=text, params=repr(plist[i])), self.leg, ref, obs)
 
     def data_same(self):
+        """the source data hold what they held (by VALUE: a stored object modified in place counts) -- since the last
+        call for #h, so that a modification is reported once, at the call that made it"""
         ok = all(self.conn.tables[n].rows == rows for n, rows in self.table_snapshot.items())
         if self.entries_snapshot:
             t = self.conn.tables['postings']
             ok = ok and t.entries is self.entries and self.entries == self.entries_snapshot
+        if self.holdings:
+            now = frozen(self.holdings)
+            if now != self.holdings_snapshot or any(c.tables['h'].rows is not self.holdings for c in (self.conn, self.conn2)):
+                self.holdings_snapshot = now
+                ok = False
         return ok
 
     def reference(self, s, i):
@@ -813,13 +948,15 @@ def impure_folding(ctx, sess):
 # ---- legs ---------------------------------------------------------------------------------------------------
 def s2c(ctx):
     setups = {}
-    for name in ('3', '7') if ctx.quick else ('2', '5', '7'):
+    for name in ('3', '9', 'k') if ctx.quick else ('2', '5', '9', 'k'):
         r = ctx.tlc('Gen_BQLSession', 'Gen_BQLSession_setup%s.cfg' % name, leg='GEN-setup', workers=1)
         setups[name] = r.printed[0]
     runs = [('Gen_BQLSession_q3.cfg', '3', None)] if ctx.quick else [('Gen_BQLSession_t3.cfg', '5', None), ('Gen_BQLSession_t4.cfg', '2', None)]
     nsim = ctx.pick(600, 8000)
     w = ctx.pick(4, 16)
-    runs.append(('Gen_BQLSession_sim.cfg', '7', 'num=%d' % max(1, nsim // (w * 12))))
+    # parameters of different literal kinds that the host language calls equal, every history of 2 (3) calls
+    runs.append((ctx.pick('Gen_BQLSession_k2.cfg', 'Gen_BQLSession_k3.cfg'), 'k', None))
+    runs.append(('Gen_BQLSession_sim.cfg', '9', 'num=%d' % max(1, nsim // (w * 12))))
     sessions = {}
     total = good = 0
     ops_seen = {}
@@ -883,7 +1020,7 @@ def s2c(ctx):
 
 def c2s(ctx):
     """random histories of <= 40 calls, recorded and judged by TLC"""
-    r = ctx.tlc('Gen_BQLSession', 'Gen_BQLSession_setup7.cfg', leg='GEN-setup', workers=1)
+    r = ctx.tlc('Gen_BQLSession', 'Gen_BQLSession_setup9.cfg', leg='GEN-setup', workers=1)
     setup = r.printed[0]
     pristine = start_pristine(ctx, ctx.pick(40, 120))       # runs beside the recording
     sess = Session(ctx, setup)
@@ -907,17 +1044,54 @@ def c2s(ctx):
                          else {'kind': 'map', 'seq': [], 'map': [[k, ['i', 0]] for k in p]}) for p in plist])
         lobjs.append((text, plist))
     path = ctx.path('c09-trace.ndjson')
-    nhist = ctx.pick(60, 600)
+    nhist = ctx.pick(36, 600)      # (the first parse of a statement no longer takes a step of its own: ~20 calls per history)
     nlines = 1
     ncalls = 0
     eid = 0
-    nfresh = 0
+    nfresh = nliteral = nsweep = 0
 
-    def fresh_events(f):
+    def literal_events(f):
+        """every ledger statement x parameters with the values written as literals, on a connection of its own: what the
+        specification DEFINES the result of the parametrised execution to be (DenoteStmt substitutes, then denotes)"""
+        nonlocal eid, nlines, nliteral
+        for k, (text, plist) in enumerate(lobjs):
+            for i in range(len(plist)):
+                twin = sess.literal_ledger(k, i)
+                if twin is None:
+                    continue
+                eid += 1
+                f.write(json.dumps({'op': 'fresh', 'id': eid, 's': nmod + k + 1, 'ps': [i + 1], 'res': twin[1], 'same': sess.data_same(),
+                                    'literal': twin[0]}) + '\n')
+                nlines += 1
+                nliteral += 1
+
+    def sweep_events(f, only=None):
+        """every statement text with each of its parameter sets in turn, forwards and backwards, on ONE connection: the same
+        text meets every parameter set right after every neighbouring one (and itself)"""
+        nonlocal eid, nlines, ncalls, nsweep
+        f.write(json.dumps({'op': 'begin', 'id': eid}) + '\n')
+        nlines += 1
+        for s in range(len(tstmts)) if only is None else only:
+            npar = len(tparams[s])
+            for i in list(range(npar)) + list(reversed(range(npar))):
+                eid += 1
+                if s < nmod:
+                    res = bm.project(sess.call({}, 'text', s, [i]), st)
+                else:
+                    res = sess.run_ledger(sess.cursor, s - nmod, [i], 'text')
+                f.write(json.dumps({'op': 'text', 'id': eid, 's': s + 1, 'ps': [i + 1], 'res': res, 'same': sess.data_same(), 'conn': 1,
+                                    'epoch': sess.epoch}) + '\n')
+                nlines += 1
+                ncalls += 1
+                nsweep += 1
+
+    def fresh_events(f, only=None):
         """every ledger statement x parameters once on a connection of its own (no history): the reference TLC holds
         all other executions against"""
         nonlocal eid, nlines, nfresh
         for k, (text, plist) in enumerate(lobjs):
+            if only is not None and k not in only:
+                continue
             for i in range(len(plist)):
                 eid += 1
                 res = sess.fresh_ledger(k, i)
@@ -928,6 +1102,7 @@ def c2s(ctx):
     with open(path, 'w') as f, FastParse(real_every=ctx.pick(50, 20)):
         f.write(json.dumps({'op': 'setup', 'id': 0, 'stmts': tstmts, 'params': tparams, 'tabs': setup['tabs']}) + '\n')
         fresh_events(f)
+        literal_events(f)
         for hno in range(nhist):
             f.write(json.dumps({'op': 'begin', 'id': eid}) + '\n')
             nlines += 1
@@ -944,7 +1119,9 @@ def c2s(ctx):
                         objs[s] = copy.deepcopy(sess.ledger_stmts[s - nmod][1])
                     f.write(json.dumps({'op': 'parse', 'id': eid, 's': s + 1}) + '\n')
                     nlines += 1
-                    continue
+                    if r < 0.08:
+                        continue        # (a re-parse is a step of its own; the first parse of a statement goes on to use it)
+                    eid += 1
                 npar = len(tparams[s])
                 if r < 0.55:
                     op, ps = 'execute', [rng.randrange(npar)]
@@ -964,6 +1141,7 @@ def c2s(ctx):
                 f.write(json.dumps(ev) + '\n')
                 nlines += 1
                 ncalls += 1
+        sweep_events(f)
         # once more on new connections, made after everything else has run in the process
         f.write(json.dumps({'op': 'begin', 'id': eid}) + '\n')
         nlines += 1
@@ -974,6 +1152,14 @@ def c2s(ctx):
             f.write(json.dumps({'op': 'fresh', 'id': eid, 's': nmod + k + 1, 'ps': [i + 1], 'res': res, 'same': True, 'process': 'new'}) + '\n')
             nlines += 1
             nfresh += 1
+        # the data change: #h is replaced on the long-lived connections.  From here on a result is a function of (text,
+        # parameters, the NEW data) -- TLC forgets what it has seen --: nothing executed (compiled, cached) before shows
+        sess.new_epoch()
+        f.write(json.dumps({'op': 'data', 'id': eid}) + '\n')
+        nlines += 1
+        hs = [k for k, (text, _) in enumerate(lobjs) if '#h' in text]
+        fresh_events(f, hs)
+        sweep_events(f, [nmod + k for k in hs])
         # folding events: a constant expression folded / evaluated per row / with parameters (values outside the model: opaque)
         folds = []
         rich_folding(ctx, sess.conn, trace=folds)
@@ -996,11 +1182,15 @@ def c2s(ctx):
     for rj in rejected:
         ev = json.loads(lines[rj['line'] - 1])
         # the events of that history up to the rejected line
-        start = max(i for i in range(rj['line']) if json.loads(lines[i]).get('op') in ('begin', 'setup'))
+        start = max(i for i in range(rj['line']) if json.loads(lines[i]).get('op') in ('begin', 'setup', 'data'))
         hist = [json.loads(x) for x in lines[start:rj['line']]]
         hist = [{k: v for k, v in h.items() if k != 'res' or h is hist[-1]} for h in hist]
         case = {'kind': 'c2s', 'event': ev, 'history': hist, 'spec': rj, 'setup': setup}
-        if ev['op'] == 'fold':
+        if ev.get('literal'):
+            ctx.violation('c2s:literal:%s' % ('differs-from-parameters' if ev['res']['ok'] else 'exception:%s' % ev['res'].get('exc')),
+                          'the statement with the parameter values written as literals vs executed with parameters', case, 'C2S',
+                          rj['spec'], ev['res'])
+        elif ev['op'] == 'fold':
             ctx.violation('c2s:fold', 'folded, per-row and parameter values differ', case, 'C2S', ev['perrow'], [ev['folded'], ev['params']])
         elif not ev.get('same', True):
             ctx.violation('c2s:data-mutated:%s' % ev['op'], 'source data changed by the call', case, 'C2S')
@@ -1015,6 +1205,7 @@ def c2s(ctx):
         ctx.violation('data-mutated:end', 'source tables / ledger entries differ at the end of the recording', {'kind': 'end'}, 'C2S')
     ctx.traces += nlines - 1 - len(rejected)
     ctx.leg('C2S', histories=nhist, lines=nlines - 1, calls=ncalls, fresh_connection_calls=nfresh, ledger_statements=len(lobjs),
+            literal_twins=nliteral, sweep_calls=nsweep,
             fold_events=len(folds), rejected=len(rejected), **sess.counts)
 
 
@@ -1028,6 +1219,9 @@ def run(ctx):
                         'ledger statements are outside the model: judged as "result is a function of (text, params, entries)" -- by '
                         'TLC over the recorded calls (history-free executions on connections of their own, in this and in a new '
                         'process, included), and against a fresh connection whenever one runs between the calls of a replayed history',
+                        'source data are compared by value (repr of every cell of #h, == on ledger entries and a deep copy of them) '
+                        'before and after every call',
+                        'a Decimal without fractional digits has no literal denoting exactly it: such parameter sets get no literal twin',
                         'the value of a connective is the pinned one (DESIGN Appendix B: AND stops at the first NULL or false operand, '
                         'OR is Kleene); the relational folding legs (folded = per row = parameters) do not depend on it',
                         'TLC 1.8, Json/IOUtils community modules, CPython 3.12']
@@ -1047,6 +1241,16 @@ def run(ctx):
                       workers=1)     # one worker: breadth-first search reports the shortest counterexample, the executemany one
         if '<ExecuteMany(' not in res.behaviour:
             raise MachineryError('the executemany counterexample on the shipped mechanism was not found')
+        # parameters of different literal kinds that the host language calls equal (1 / TRUE, 0 / FALSE) as outputs, on a
+        # connection that keeps compiled statements under (text, parameters as BQL values); keyed by the host
+        # language's equality instead, execute(text, (1, ..)); execute(text, (TRUE, ..)) must be rejected
+        res = ctx.tlc('MC_BQLSession', ctx.pick('MC_BQLSession_kinds.cfg', 'MC_BQLSession_kinds4.cfg'), leg='MC')
+        if res.violated:
+            ctx.violation('spec:kinds:' + ','.join(res.violated), 'TLC violates history independence with a statement cache keyed by value',
+                          {'kind': 'mc', 'behaviour': res.behaviour[:3000]}, 'MC')
+        res = ctx.tlc('MC_BQLSession', 'MC_BQLSession_hostcache.cfg', leg='MC-nonvacuity', expect_violation='ResultInv', workers=1)
+        if res.behaviour.count('<ExecuteText(') != 2:
+            raise MachineryError('the counterexample of the host-equality statement cache is not execute(text); execute(text)')
         res = ctx.tlc('MC_BQLSession', 'MC_BQLSession_fold.cfg', leg='MC-fold', workers=1)
         if res.violated:
             ctx.violation('spec:fold:' + ','.join(res.violated), 'folding changes the value of an expression',
@@ -1099,15 +1303,30 @@ def replay(ctx, rep):
                             out = {'ok': False, 'exc': type(ex).__name__, 'msg': str(ex)[:120]}
             return out
         events = case['history']
-        a = last_call(Session(ctx, case['setup']), events)
+
+        def session():
+            sess = Session(ctx, case['setup'])
+            if events[-1].get('epoch'):         # recorded after #h had been replaced
+                sess.new_epoch()
+            return sess
+        a = last_call(session(), events)
         last = dict(events[-1], op='text' if events[-1]['op'] == 'execute' else events[-1]['op'])
-        b = last_call(Session(ctx, case['setup']), [last])
+        b = last_call(session(), [last])
         a.pop('msg', None), b.pop('msg', None)
         print('replay: after the history :', json.dumps(a)[:300])
         print('replay: alone, fresh      :', json.dumps(b)[:300])
         bad = a != b or (bool(case['spec'].get('matches')) and not a['ok'])     # matching parameters never fail
         print('replay:', 'MISMATCH reproduced' if bad else 'no mismatch')
         return 1 if bad else 0
+    if case.get('kind') == 'c2s' and case['event'].get('literal'):
+        sess = Session(ctx, case['setup'])
+        ev = case['event']
+        k, i = ev['s'] - 1 - len(sess.stmts), ev['ps'][0] - 1
+        a, b = sess.fresh_ledger(k, i), sess.literal_ledger(k, i)[1]
+        print('replay: with parameters :', sess.ledger_stmts[k][0], repr(sess.ledger_stmts[k][2][i]), json.dumps(a)[:200])
+        print('replay: as literals     :', ev['literal'], json.dumps(b)[:200])
+        print('replay:', 'MISMATCH reproduced' if a != b else 'no mismatch')
+        return 1 if a != b else 0
     if case.get('kind') == 'fold':
         import beanquery
         before = len(ctx.violations) + sum(v['n'] for v in ctx.known_hits.values())
